@@ -47,4 +47,39 @@ def registry():
              'offset': 'result == 0 ==> all(pState[0].offset_P[t] == offset_0[t] for t in range(16))',
              'counters': 'result == 0 ==> (pState[0].counter_A == 1 and pState[0].counter_P == 1 and pState[0].cipher == cipher)',
              'zeroed': 'result == 0 ==> all(pState[0].offset_A[t] == 0 and pState[0].sum[t] == 0 for t in range(16))'})
+
+    # ------------------------------------------------------------------ memory safety of the data-path functions
+    # (functional OCB correctness is not stated here: only bounds -- in particular L[ntz(counter)] with ntz <= 64 --, error codes
+    #  and the frame)
+    STATE = {'state': 'struct', 'state.cipher': 'struct', 'state.cipher.encrypt': 'fn:block_encrypt',
+             'state.cipher.decrypt': 'fn:block_decrypt'}
+    SET = {'state.cipher.block_len': 16}
+    ERR_TAG_SIZE, ERR_MAX_DATA = 13, 10
+
+    upd = dict(STATE)
+    upd['in'] = 'u8[in_len]'
+    R.define('consumed()', 'u64(old(in_len) - in_len)')
+    R.fn('OCB_update', regions=upd, cost=30,
+         configs=[{'name': 'default', 'set': SET}, {'name': 'null_state', 'null': ['state']}, {'name': 'null_in', 'null': ['in'], 'set': SET}],
+         modifies=['state.offset_A', 'state.sum', 'state.counter_A'],
+         ensures={'null_args': '(null(state) or null(in)) ==> result == %d' % ERR_NULL},
+         loops={0: dict(invariants={'cursor': 'in_len <= old(in_len) and offset(in) == consumed()'}, decreases='in_len')})
+
+    R.fn('OCB_digest', regions=dict(STATE, tag='u8[tag_len]'), cost=5,
+         configs=[{'name': 'default', 'set': SET}, {'name': 'null_state', 'null': ['state']}, {'name': 'null_tag', 'null': ['tag'], 'set': SET}],
+         modifies=['tag'],
+         ensures={'null_args': '(null(state) or null(tag)) ==> result == %d' % ERR_NULL,
+                  'tag_size': 'not (null(state) or null(tag)) and tag_len != 16 ==> result == %d' % ERR_TAG_SIZE})
+
+    tr = dict(STATE)
+    tr.update({'in': 'u8[in_len]', 'out': 'u8[in_len]'})
+    R.fn('OCB_transcrypt', regions=tr, cost=60,
+         configs=[{'name': 'encrypt', 'set': dict(SET, direction=0)}, {'name': 'decrypt', 'set': dict(SET, direction=1)},
+                  {'name': 'null_state', 'null': ['state']}, {'name': 'null_in', 'null': ['in'], 'set': SET},
+                  {'name': 'null_out', 'null': ['out'], 'set': SET}],
+         modifies=['out', 'state.offset_P', 'state.checksum', 'state.counter_P'],
+         ensures={'null_args': '(null(state) or null(in) or null(out)) ==> result == %d' % ERR_NULL},
+         loops={0: dict(invariants={'cursor': 'in_len <= old(in_len) and offset(in) == consumed() and offset(out) == consumed() '
+                                              'and offset(checksummed) == consumed()'}, decreases='in_len'),
+                4: dict(invariants={'bounds': 'i <= in_len and in_len < 16'}, decreases='in_len - i')})
     return R
